@@ -290,8 +290,45 @@ func runCase(cs poolsim.Case, coqWanted bool) (string, *failure, stats, *poolsim
 		var added uint64
 		switch stp.Kind {
 		case "chain":
-			// law for re-offered transactions: they spend nothing a pooled v2 transaction uses
+			_, poolV2 := r.Pool()
 			o := r.Chain(stp.Op)
+			// law used by C05_retention: the re-offered v1 transactions of the last reverted block
+			// spend nothing a pooled v2 transaction uses
+			if lr := r.LastReverted(); lr != nil && r.Tip != before {
+				spent := map[types.Hash256]bool{}
+				nowV1, _ := r.Pool()
+				pooled := map[types.TransactionID]bool{}
+				for _, x := range nowV1 {
+					pooled[x.ID()] = true
+				}
+				for _, x := range lr.Block.Transactions {
+					if len(x.MinerFees) == 0 || !pooled[x.ID()] {
+						continue // only a re-offered transaction that re-entered the pool can displace another
+					}
+					for _, in := range x.SiacoinInputs {
+						spent[types.Hash256(in.ParentID)] = true
+					}
+					for _, in := range x.SiafundInputs {
+						spent[types.Hash256(in.ParentID)] = true
+					}
+					for _, sp := range x.StorageProofs {
+						spent[types.Hash256(sp.ParentID)] = true
+					}
+				}
+				for _, u := range poolV2 {
+					for _, in := range u.SiacoinInputs {
+						if spent[types.Hash256(in.Parent.ID)] {
+							report("c05-law-reoffered-conflict", "a re-offered v1 transaction of the last reverted block re-entered the pool and spends an input of a pooled v2 transaction")
+						}
+					}
+					for _, in := range u.SiafundInputs {
+						if spent[types.Hash256(in.Parent.ID)] {
+							report("c05-law-reoffered-conflict", "a re-offered v1 transaction of the last reverted block re-entered the pool and spends an input of a pooled v2 transaction")
+						}
+					}
+				}
+				st["reoffer-law-checks"]++
+			}
 			if o.Err {
 				st["chain-op-errors"]++
 			}
@@ -431,7 +468,7 @@ func run(c *hx.Ctx) {
 	for _, cs := range corpus(c.Seed) {
 		doCase(cs)
 	}
-	n := c.Scale(70, 2000)
+	n := c.Scale(220, 4000)
 	for i := 0; i < n; i++ {
 		g := c.R.Fork()
 		cs := poolsim.Case{Seed: g.U64(), Regime: []int{1, 2, 0, 1, 2, 4}[i%6], Opts: chaingen.GenOpts{Blocks: 5 + g.Intn(10), Branchiness: 2 + g.Intn(4), TxPerBlock: g.Intn(3), Jitter: g.Intn(3)}}
